@@ -654,5 +654,7 @@ ASSUME Profile = "deq" => DeqUniverseLaws     \* 44^3 triples: once, in the run 
    state; they are therefore evaluated in the states that are expanded (the leaves of the bounded
    exploration only are results, already covered by the laws of their predecessor) *)
 Expanded == Len(store) - NSeed < Depth
-Laws == WellFormed /\ DeepEqLaws /\ ((Expanded /\ Profile # "deq") => MapLaws /\ PairLaws /\ ArrLaws)
+Laws == /\ WellFormed /\ DeepEqLaws
+        /\ (Expanded /\ Profile # "deq") => PairLaws /\ ArrLaws
+        /\ (Expanded /\ Profile \notin {"deq", "merge", "merge13"}) => MapLaws   \* single-entry maps: see the keys profiles
 =============================================================================
